@@ -72,7 +72,20 @@ def fill(claim, na):
         "re-indexing idiom = exit 2.",
         "DESIGN.md section 4, C05",
     )
-    for pid in ("C01", "C06", "C07", "C08", "C09", "C11", "C12", "C13", "C15", "C16",
+    claim(
+        "C01", "other",
+        "fold summaries by one symbolic iteration (term extraction), guard-classified path table, isinstance-chain ordering against the class hierarchy, dominance rules",
+        "Decides the STRUCTURE of composition: numeric and symbolic Series/Parallel combinators are the folds Σ Z_k and "
+        "1/Σ(1/Z_k) over every child with zero start and no conditional contribution; the open/short path table of "
+        "Parallel._impedance (guards classified by semantic recognisers); subclass-before-superclass dispatch with the right "
+        "argument set at all five sites; _calculate_impedances' refusals, limit routing and index pairing; all entry "
+        "points share one evaluator; both construction routes end in Parser().process and Circuit.__init__ binds a Series of "
+        "elements/connections. Does not decide floating-point agreement of scalar vs array evaluation.",
+        "Trusted: recognisers for guards (unrecognised guard in the child loop = exit 2); element-wise semantics of numpy "
+        "arithmetic on the accumulator.",
+        "DESIGN.md section 4, C01",
+    )
+    for pid in ( "C06", "C07", "C08", "C09", "C11", "C12", "C13", "C15", "C16",
                 "C17", "C18", "C19", "C20"):
         na(pid, NOT_YET)
     na("C10", "statistical behaviour of a heuristic pipeline (noise tracking, drift margin) on noisy inputs: quantifies over "
